@@ -574,8 +574,12 @@ def impl(op, arg):
         fr, exact = make()
         con = Console(file=io.StringIO(), width=W, color_system=None, legacy_windows=False, _environ={},
                       log_time=False, log_path=False)
+        px = None
         if via_log:
-            con.log(fr)
+            # console.log lays the renderable out inside a grid column whose width the TABLE chooses from the frame's
+            # measurement (not necessarily W): record the width the frame was actually given and what it rendered
+            px = Proxy(fr)
+            con.log(px)
         else:
             con.print(fr, width=N[0] if N else None)
         out = con.file.getvalue()
@@ -592,11 +596,17 @@ def impl(op, arg):
             c2, o2 = console_opts(w)
             table.append([w, [s2t(_text(l)) for l in lines_of(c2, make()[0], o2)]])
         if via_log:
-            # log wraps the renderable in an expanding grid, which pads every line to the console width: compare
-            # without trailing blanks; intactness and the bound are required, not the exact line width
+            # the grid pads every line to the console width: compare without trailing blanks.  Required: the frame was
+            # given at most W cells and its own lines (at the width it was given) are printed intact; not the exact
+            # line width (the column is as wide as the table decides -- C07's business)
             exact = False
+            from rich.segment import Segment
+            if not px.r or max(px.r) > W:
+                raise AssertionError("console.log handed the frame more than the console width")
+            given = max(px.r)
+            own = [_text(l) for l in Segment.split_lines(px.r[given])]
             printed = [x.rstrip(" ") for x in printed]
-            table = [[w, [s2t(t2s(l).rstrip(" ")) for l in ls]] for w, ls in table]
+            table = [[W, [s2t(x.rstrip(" ")) for x in own]]]
         return [N, W, 1 if exact else 0, table, [s2t(x) for x in printed]]
     if op == "columns_twice":
         labels, src, pl, pr, equal, cf, rtl, measure, W = arg
@@ -777,7 +787,102 @@ def model_case(op, arg):
     return op, arg
 
 
+def _int(x):
+    return isinstance(x, int) and not isinstance(x, bool)
+
+
+def _opt(x, lo=None):
+    return isinstance(x, list) and (x == [] or (len(x) == 1 and _int(x[0]) and (lo is None or x[0] >= lo)))
+
+
+def _str(x):
+    return isinstance(x, list) and all(_int(c) and 0 <= c < 0x110000 and not 0xD800 <= c <= 0xDFFF for c in x)
+
+
+def _strs(x):
+    return isinstance(x, list) and all(_str(y) for y in x)
+
+
+def _pad(x):
+    return isinstance(x, list) and len(x) in (1, 2, 4) and all(_int(v) and v >= 0 for v in x)
+
+
+def _child(d):
+    if not (isinstance(d, list) and d and _int(d[0])):
+        return False
+    k = d[0]
+    try:
+        if k in (0, 6):
+            return len(d) == 2 and _str(d[1])
+        if k == 1:
+            return len(d) == 4 and _child(d[1]) and _pad(d[2]) and d[3] in (0, 1)
+        if k == 2:
+            return (len(d) == 7 and _child(d[1]) and _int(d[2]) and 0 <= d[2] < len(BOX_NAMES) and _str(d[3])
+                    and d[4] in (0, 1) and _opt(d[5], 0) and _pad(d[6]))
+        if k == 3:
+            return len(d) == 5 and _child(d[1]) and d[2] in (0, 1, 2) and d[3] in (0, 1) and _opt(d[4], 0)
+        if k == 4:
+            return (len(d) == 5 and _int(d[1]) and d[1] >= 1 and isinstance(d[2], list)
+                    and all(_strs(r) and len(r) == d[1] for r in d[2]) and d[3] in (0, 1)
+                    and _int(d[4]) and 0 <= d[4] < len(BOX_NAMES))
+        if k == 5:
+            return len(d) == 3 and _str(d[1]) and d[2] in (0, 1, 2)
+    except Exception:
+        return False
+    return False
+
+
+def _node(t):
+    return (isinstance(t, list) and len(t) == 4 and _child(t[0]) and isinstance(t[1], list) and len(t[1]) == 2
+            and all(v in (0, 1, 2) for v in t[1]) and t[2] in (0, 1) and isinstance(t[3], list) and all(_node(k) for k in t[3]))
+
+
+def shape_ok(op, a):
+    """does the argument have the shape (and value ranges) the generator of this op produces?  Shrunk / malformed
+    arguments must never be reported as a failure of the implementation."""
+    try:
+        if not isinstance(a, list):
+            return False
+        b = (0, 1)
+        if op == "padding":
+            return len(a) == 5 and _child(a[0]) and _int(a[1]) and a[1] >= 1 and _pad(a[2]) and _opt(a[3]) and a[4] in b
+        if op == "panel":
+            return (len(a) == 11 and _child(a[0]) and _int(a[1]) and a[1] >= 1 and _int(a[2]) and a[2] >= a[1]
+                    and isinstance(a[3], list) and len(a[3]) == 4 and _int(a[3][0]) and 0 <= a[3][0] < len(BOX_NAMES)
+                    and all(v in b for v in a[3][1:]) and _str(a[4]) and 9 not in a[4] and a[5] in (0, 1, 2) and a[6] in b
+                    and _opt(a[7], 0) and _pad(a[8]) and _opt(a[9]) and _opt(a[10]))
+        if op == "align":
+            return (len(a) == 7 and _child(a[0]) and _int(a[1]) and a[1] >= 1 and _int(a[2]) and a[2] >= a[1]
+                    and a[3] in (0, 1, 2) and a[4] in b and _opt(a[5], 0)
+                    and isinstance(a[6], list) and (a[6] == [] or (len(a[6]) == 1 and _opt(a[6][0]))))
+        if op in ("constrain", "styled"):
+            return len(a) == 3 and _child(a[0]) and _int(a[1]) and a[1] >= 1 and _opt(a[2], 0)
+        if op == "tree":
+            return len(a) == 4 and a[0] in b and a[1] in b and _int(a[2]) and a[2] >= 1 and _node(a[3])
+        if op == "columns_render":
+            return (len(a) == 10 and _strs(a[0]) and a[0] and _opt(a[1], 1) and all(_int(v) and v >= 0 for v in a[2:4])
+                    and all(v in b for v in a[4:7]) and a[7] in (0, 1, 2, 3) and a[8] in b and _int(a[9]) and a[9] >= 10
+                    and (not a[1] or a[9] >= a[1][0] + max(a[2], a[3])))
+        if op == "columns_twice":
+            return (len(a) == 9 and _strs(a[0]) and a[0] and a[1] in range(5) and all(_int(v) and v >= 0 for v in a[2:4])
+                    and all(v in b for v in a[4:8]) and _int(a[8]) and a[8] >= 10)
+        if op == "columns_alias":
+            return (len(a) == 5 and _strs(a[0]) and a[0] and _int(a[1]) and a[1] >= 1 and a[2] in b and a[3] in b
+                    and _int(a[4]) and a[4] >= 10)
+        if op == "container_twice":
+            return (len(a) == 5 and _strs(a[0]) and a[0] and a[1] in (1, 2, 3) and a[2] in range(5) and a[3] in b
+                    and _int(a[4]) and a[4] >= 24)
+        if op == "print_frame":
+            return (len(a) == 8 and a[0] in range(6) and _str(a[1]) and a[1] and _strs(a[2]) and a[2] and a[3] in (0, 1, 2)
+                    and a[4] in b and _opt(a[5], 0) and _int(a[6]) and a[6] >= 8 and a[7] in b and not (a[7] and a[5]))
+    except Exception:
+        return False
+    return True
+
+
 def spec_cases(op, arg, out):
+    if not shape_ok(op, arg):
+        return []       # a malformed (e.g. shrunk) argument: a harness error is not a finding
     if isinstance(out, dict):
         # an exception where none is expected: let the corr op fail visibly
         if op in ("padding", "panel", "align", "constrain", "styled", "tree", "columns_render", "columns_twice",
